@@ -8,39 +8,70 @@ class Unknown(Exception):
     pass
 
 
-# character classes (a partition of all chars once the literal singletons are added)
-ALPHA, DIGIT, ASCII_OTHER, UNI_ALPHA, UNI_DIGIT, UNI_OTHER = "ASCII_ALPHA", "ASCII_DIGIT", "ASCII_OTHER", "UNI_ALPHA", "UNI_NUMERIC", "UNI_OTHER"
-BASE_CLASSES = [ALPHA, DIGIT, ASCII_OTHER, UNI_ALPHA, UNI_DIGIT, UNI_OTHER]
+# character classes: a partition of `char` into ASCII code-point intervals (cut at every boundary the code can observe) and three
+# non-ASCII classes.  ("iv", lo, hi) is the interval lo..=hi.
+UNI_ALPHA, UNI_DIGIT, UNI_OTHER = "UNI_ALPHA", "UNI_NUMERIC", "UNI_OTHER"
+BASE_CUTS = {0, 48, 58, 65, 91, 97, 123, 128}          # 0-9, A-Z, a-z
 
-CHAR_PREDS = {
-    "is_ascii_alphabetic": {ALPHA},
-    "is_ascii_digit": {DIGIT},
-    "is_ascii_alphanumeric": {ALPHA, DIGIT},
-    "is_ascii_lowercase": None, "is_ascii_uppercase": None,     # split ALPHA: not representable -> Unknown
-    "is_alphabetic": {ALPHA, UNI_ALPHA},
-    "is_numeric": {DIGIT, UNI_DIGIT},
-    "is_alphanumeric": {ALPHA, DIGIT, UNI_ALPHA, UNI_DIGIT},
-    "is_ascii": {ALPHA, DIGIT, ASCII_OTHER, "LIT"},
-    "is_ascii_punctuation": None, "is_ascii_graphic": None,
+
+class Refine(Exception):
+    """The code distinguishes characters inside one class: the partition needs these additional cut points."""
+    def __init__(self, cuts):
+        Exception.__init__(self, "refine %s" % sorted(cuts))
+        self.cuts = set(c for c in cuts if 0 < c < 128)
+
+
+def classes_for(cuts):
+    cs = sorted(set(cuts) | BASE_CUTS)
+    return [("iv", cs[k], cs[k + 1] - 1) for k in range(len(cs) - 1)] + [UNI_ALPHA, UNI_DIGIT, UNI_OTHER]
+
+
+def _inside(cls, ranges):
+    """True / False when the interval lies inside / outside the union of the inclusive ranges; Refine when it straddles a boundary."""
+    lo, hi = cls[1], cls[2]
+    for a, b_ in ranges:
+        if a <= lo and hi <= b_:
+            return True
+    if all(hi < a or lo > b_ for a, b_ in ranges):
+        return False
+    raise Refine({x for a, b_ in ranges for x in (a, b_ + 1)})
+
+
+ASCII_SETS = {
+    "is_ascii_alphabetic": [(65, 90), (97, 122)], "is_ascii_digit": [(48, 57)], "is_ascii_alphanumeric": [(48, 57), (65, 90), (97, 122)],
+    "is_ascii_lowercase": [(97, 122)], "is_ascii_uppercase": [(65, 90)], "is_ascii": [(0, 127)],
+    "is_ascii_punctuation": [(33, 47), (58, 64), (91, 96), (123, 126)], "is_ascii_graphic": [(33, 126)], "is_ascii_hexdigit": [(48, 57), (65, 70), (97, 102)],
+    "is_ascii_whitespace": [(9, 10), (12, 13), (32, 32)], "is_ascii_control": [(0, 31), (127, 127)],
 }
-
-
-def lit_class(ch):
-    return ("lit", ch)
+UNI_SETS = {"is_alphabetic": ([(65, 90), (97, 122)], {UNI_ALPHA}), "is_numeric": ([(48, 57)], {UNI_DIGIT}),
+            "is_alphanumeric": ([(48, 57), (65, 90), (97, 122)], {UNI_ALPHA, UNI_DIGIT})}
 
 
 def pred_on_class(name, cls):
-    table = CHAR_PREDS.get(name, "missing")
-    if table == "missing" or table is None:
-        raise Unknown("char predicate %s is not modelled" % name)
-    if isinstance(cls, tuple) and cls[0] == "lit":
-        ch = cls[1]
-        if ch.isascii() and (ch.isalpha() or ch.isdigit()):
-            raise Unknown("alphanumeric literal %r used as a character class" % ch)
-        if not ch.isascii():
-            raise Unknown("non-ASCII literal %r" % ch)
-        return "LIT" in table
-    return cls in table
+    if name in ASCII_SETS:
+        return _inside(cls, ASCII_SETS[name]) if isinstance(cls, tuple) else False
+    if name in UNI_SETS:
+        rng, uni = UNI_SETS[name]
+        return _inside(cls, rng) if isinstance(cls, tuple) else cls in uni
+    raise Unknown("char predicate %s is not modelled" % name)
+
+
+def cmp_class_const(op, cls, k):
+    """Truth value of `c <op> k` for every character c of the class (k an ASCII code point), or Refine."""
+    if k > 127:
+        raise Unknown("comparison with the non-ASCII constant U+%04X" % k)
+    if not isinstance(cls, tuple):
+        return op in ("Gt", "Ge", "Ne")          # every non-ASCII character is greater than every ASCII one
+    lo, hi = cls[1], cls[2]
+    holds = {"Lt": lambda x: x < k, "Le": lambda x: x <= k, "Gt": lambda x: x > k, "Ge": lambda x: x >= k, "Eq": lambda x: x == k, "Ne": lambda x: x != k}[op]
+    a, b_ = holds(lo), holds(hi)
+    inner = holds(k) if lo <= k <= hi else a
+    if a == b_ == inner:
+        return a
+    raise Refine({k, k + 1})
+
+
+LOOP = ("loop-again",)
 
 
 class Chars:
@@ -49,10 +80,10 @@ class Chars:
 
 
 class Interp:
-    def __init__(self, facts, first_class):
+    def __init__(self, facts, first_class, classes=None):
         self.f = facts
         self.first = first_class    # class of the first character, or "EMPTY"
-        self.literals = set()
+        self.classes = classes or classes_for(())
         self.steps = 0
 
     # ------------------------------------------------------------------
@@ -62,13 +93,19 @@ class Interp:
             env[i + 1] = a
         return self.exec_body(body, env)
 
-    def exec_body(self, b, env):
-        bi = 0
+    def exec_body(self, b, env, start=0, stop_at=None):
+        """Run from block `start`.  stop_at: a block index; arriving there again ends the run with the sentinel LOOP (used to execute one
+        iteration of a loop over the remaining characters)."""
+        bi = start
         visited = 0
+        first_step = True
         while True:
+            if stop_at is not None and bi == stop_at and not first_step:
+                return LOOP
+            first_step = False
             visited += 1
             self.steps += 1
-            if visited > 400 or self.steps > 5000:
+            if visited > 400 or self.steps > 20000:
                 raise Unknown("loop in validator body %s" % b.path)
             bb = b.blocks[bi]
             for st in bb["stmts"]:
@@ -85,13 +122,15 @@ class Interp:
                 bi = t["target"]
             elif k == "switch":
                 d = self.operand(b, env, t["discr"])
-                val = self.discr_value(d)
+                val = self.discr_value(d, [int(a[0]) for a in t["arms"]])
                 nxt = None
                 for a in t["arms"]:
                     if int(a[0]) == val:
                         nxt = a[1]
                 bi = nxt if nxt is not None else t["otherwise"]
             elif k == "call":
+                if self.is_tail_next(b, env, t):
+                    return self.tail_loop(b, env, bi, t)
                 v = self.call(b, env, t)
                 self.store(b, env, t["dest"], v)
                 if "target" not in t:
@@ -102,7 +141,44 @@ class Interp:
             else:
                 raise Unknown("terminator %s" % k)
 
-    def discr_value(self, d):
+    # ------------------------------------------------------------------ a loop over the remaining characters
+    def is_tail_next(self, b, env, t):
+        names = set()
+        for key in ("callee", "callee_args", "res", "res_args"):
+            if t.get(key):
+                names |= names_of(t[key])
+        if not name_matches(names, "Iterator::next") or not t.get("args"):
+            return False
+        try:
+            it = self.operand(b, env, t["args"][0])
+        except Unknown:
+            return False
+        return isinstance(it, Chars) and it.taken >= 1
+
+    def tail_loop(self, b, env, bi, t):
+        """`for c in chars { .. }` after the first character was taken: the rest of the string is an arbitrary sequence of characters.
+        The loop is summarised as `all(rest, P)` when (a) with no character left the function returns true, and (b) for every class the
+        body either returns false (class not in P) or comes back to this `next()` (class in P)."""
+        if "target" not in t:
+            raise Unknown("diverging next()")
+        import copy as _copy
+        e0 = _copy.copy(env)
+        self.store(b, e0, t["dest"], ("opt", None))
+        r_none = self.exec_body(b, e0, start=t["target"])
+        if r_none is not True:
+            raise Unknown("a loop over the remaining characters that does not end with `true` when nothing is left (%r)" % (r_none,))
+        acc = set()
+        for cls in self.classes:
+            e1 = _copy.copy(env)
+            self.store(b, e1, t["dest"], ("opt", ("cls", cls)))
+            r = self.exec_body(b, e1, start=t["target"], stop_at=bi)
+            if r is LOOP:
+                acc.add(cls)
+            elif r is not False:
+                raise Unknown("loop body returned %r for class %s" % (r, cls))
+        return ("allset", frozenset(acc))
+
+    def discr_value(self, d, arm_values=()):
         if d is True:
             return 1
         if d is False:
@@ -110,7 +186,19 @@ class Interp:
         if isinstance(d, tuple) and d[0] == "discr":
             return d[1]
         if isinstance(d, tuple) and d[0] == "cls":
-            raise Unknown("switch on a character (match on char) is not modelled")
+            # `match c { '_' => .., ':' => .. }`: a switch on the code point
+            cls = d[1]
+            if not isinstance(cls, tuple):
+                if any(v > 127 for v in arm_values):
+                    raise Unknown("match on a non-ASCII character constant")
+                return -1
+            lo, hi = cls[1], cls[2]
+            inside = [v for v in arm_values if lo <= v <= hi]
+            if not inside:
+                return -1
+            if lo == hi:
+                return lo
+            raise Refine({x for v in inside for x in (v, v + 1)})
         raise Unknown("switch on %r" % (d,))
 
     # ------------------------------------------------------------------ places
@@ -157,9 +245,9 @@ class Interp:
             if ty == "bool":
                 return val == "true"
             if ty == "char":
-                ch = chr(int(op["bits"]))
-                self.literals.add(ch)
-                return ("charconst", ch)
+                return ("charconst", int(op["bits"]))
+            if ty in ("u32", "u8", "u16", "u64", "usize", "i32") and op.get("bits") is not None:
+                return ("charconst", int(op["bits"]))     # a code point compared with `c as u32`
             if ty == "()":
                 return ("unit",)
             return ("const", val, ty)
@@ -187,9 +275,19 @@ class Interp:
             x = self.operand(b, env, rv["ops"][0])
             y = self.operand(b, env, rv["ops"][1])
             op = rv["op"]
-            if op in ("Eq", "Ne"):
-                r = self.eq(x, y)
-                return r if op == "Eq" else (not r)
+            if op in ("Eq", "Ne", "Lt", "Le", "Gt", "Ge"):
+                def is_cls(v):
+                    return isinstance(v, tuple) and v[0] == "cls"
+
+                def is_k(v):
+                    return isinstance(v, tuple) and v[0] == "charconst"
+                if is_cls(x) and is_k(y):
+                    return cmp_class_const(op, x[1], y[1])
+                if is_k(x) and is_cls(y):
+                    return cmp_class_const({"Lt": "Gt", "Le": "Ge", "Gt": "Lt", "Ge": "Le"}.get(op, op), y[1], x[1])
+                if op in ("Eq", "Ne") and isinstance(x, bool) and isinstance(y, bool):
+                    return (x == y) if op == "Eq" else (x != y)
+                raise Unknown("comparison %s of %r and %r" % (op, x, y))
             if op in ("BitAnd", "BitOr") and isinstance(x, bool) and isinstance(y, bool):
                 return (x and y) if op == "BitAnd" else (x or y)
             raise Unknown("binop %s" % op)
@@ -206,14 +304,6 @@ class Interp:
         if k == "cast":
             return self.operand(b, env, rv["ops"][0])
         raise Unknown("rvalue %s" % k)
-
-    def eq(self, x, y):
-        for a, c in ((x, y), (y, x)):
-            if isinstance(a, tuple) and a[0] == "cls" and isinstance(c, tuple) and c[0] == "charconst":
-                return a[1] == lit_class(c[1])
-        if isinstance(x, bool) and isinstance(y, bool):
-            return x == y
-        raise Unknown("comparison of %r and %r" % (x, y))
 
     # ------------------------------------------------------------------ calls
     def call(self, b, env, t):
@@ -232,7 +322,7 @@ class Interp:
             if not (isinstance(c, tuple) and c[0] == "cls"):
                 raise Unknown("char predicate on %r" % (c,))
             if last == "is_digit":
-                return c[1] == DIGIT     # radix 10 assumed; other radices are not modelled
+                return pred_on_class("is_ascii_digit", c[1])     # radix 10 assumed; other radices are not modelled
             return pred_on_class(last, c[1])
         if m("str::chars"):
             return Chars()
@@ -301,48 +391,58 @@ class Interp:
         raise Unknown("call of non-function value %r" % (f,))
 
 
-def classes_for(literals):
-    return BASE_CLASSES + [lit_class(c) for c in sorted(literals)]
+def _with_refinement(fn):
+    """Run fn(classes) and re-run it with a finer partition as long as the code distinguishes characters inside one class."""
+    cuts = set(BASE_CUTS)
+    for _ in range(40):
+        try:
+            return fn(classes_for(cuts)), cuts
+        except Refine as r:
+            if r.cuts <= cuts:
+                raise Unknown("partition refinement does not converge at %s" % sorted(r.cuts))
+            cuts |= r.cuts
+    raise Unknown("too many partition refinements")
 
 
-def accepted_classes(facts, fn_value, literals=("_", ":")):
-    """Set of character classes on which the char -> bool function value is true.  Literals compared against in the code are added
-    to the partition as singleton classes until a fixpoint is reached."""
-    lits = set(literals)
-    while True:
-        acc = set()
-        seen = set()
-        for cls in classes_for(lits):
-            it = Interp(facts, "EMPTY")
-            r = it.apply(fn_value, [("cls", cls)])
-            seen |= it.literals
-            if r is True:
-                acc.add(cls)
-            elif r is not False:
-                raise Unknown("predicate returned %r on class %s" % (r, cls))
-        if seen <= lits:
-            return acc
-        lits |= seen
+def accepted_classes(facts, fn_value, classes):
+    """Set of character classes on which the char -> bool function value is true."""
+    acc = set()
+    for cls in classes:
+        it = Interp(facts, "EMPTY", classes)
+        r = it.apply(fn_value, [("cls", cls)])
+        if r is True:
+            acc.add(cls)
+        elif r is not False:
+            raise Unknown("predicate returned %r on class %s" % (r, cls))
+    return acc
 
 
-def evaluate_validator(facts, body, literals=("_", ":")):
+def code_points(classes):
+    """(set of ASCII code points, set of non-ASCII class names) covered by a collection of classes."""
+    pts, uni = set(), set()
+    for c in classes:
+        if isinstance(c, tuple):
+            pts |= set(range(c[1], c[2] + 1))
+        else:
+            uni.add(c)
+    return pts, uni
+
+
+def evaluate_validator(facts, body):
     """Evaluate a `&str -> bool` validator for every class of first character (and the empty string).
-    Returns {scenario: result} where result is True / False / ('all', accepted classes of the tail predicate)."""
-    lits = set(literals)
-    while True:
-        res = {}
-        seen = set()
-        for first in ["EMPTY"] + classes_for(lits):
-            it = Interp(facts, first)
+    Returns {"EMPTY": bool, "first": [(class, result)]} where result is False / True / ("all", (ascii code points, non-ASCII classes)) —
+    "accepted exactly when every following character is in that set"."""
+    def run(classes):
+        res = {"EMPTY": Interp(facts, "EMPTY", classes).run(body, [("str",)]), "first": []}
+        for first in classes:
+            it = Interp(facts, first, classes)
             r = it.run(body, [("str",)])
-            seen |= it.literals
             if isinstance(r, tuple) and r[0] == "all":
-                acc = accepted_classes(facts, r[1], lits)
-                for a in acc:
-                    if isinstance(a, tuple):
-                        seen.add(a[1])
-                r = ("all", frozenset(map(str, acc)))
-            res[str(first)] = r
-        if seen <= lits:
-            return res
-        lits |= seen
+                r = ("all", code_points(accepted_classes(facts, r[1], classes)))
+            elif isinstance(r, tuple) and r[0] == "allset":
+                r = ("all", code_points(r[1]))
+            res["first"].append((first, r))
+        return res
+    res, cuts = _with_refinement(run)
+    res["cuts"] = sorted(cuts)
+    return res
